@@ -18,12 +18,12 @@ MANIFEST = {
              'C10_equals_same_object), default comparison characterised (C10_frame_default_exactly), options add exactly their clause (C10_frame_options_add_exactly, '
              'C10_series_options_add_exactly). Implementation model M_tb_equals of TypeBlocks.equals (the three operand paths of == : block-compatible / reblocked / '
              '.values with the row dtype, the both-missing mask, the walk over eq blocks with start/end offsets into the mask) equals S for EVERY pair of block layouts '
-             'under the explicit boolean guard tb_dom (C10_tb_refines, C10_tb_layout_independent), and with no condition on missing values once the mask combines self '
-             'with other (C10_tb_refines_fixed_mask); Frame, Bus, Series, Index models refine S (C10_frame_refines, C10_bus_refines, C10_series_refines, C10_index_refines); '
+             'with only well-formedness and the NaT-coercion guard as hypotheses (C10_tb_refines, stated over the mask operands and the column-less answer extracted '
+             'from the source, C10_masks_in_source; C10_tb_refines_any_mask for an arbitrary mask under tb_dom; C10_tb_layout_independent); Frame, Bus, Series, Index models refine S (C10_frame_refines, C10_bus_refines, C10_series_refines, C10_index_refines); '
              'HE: == symmetric, equal containers have the same hash key, the hash model hashes that key (C10_he_eq_sym, C10_he_frame_eq_hash, C10_he_series_eq_hash, '
              'C10_he_hash_model_is_key). The mask operands and include_none flags of TypeBlocks/Series/Index.equals, the equals keyword defaults and the keyword constants '
              'of SeriesHE/FrameHE.__eq__ are re-extracted from the source by ast on every run (Gen/Gen_c10.v); the theorems are stated over those generated constants '
-             '(C10_defaults_in_source, C10_series_index_mask_in_source, C10_he_options_in_source). Refuted/C10.v holds one computed witness per known finding. '
+             '(C10_defaults_in_source, C10_masks_in_source, C10_he_options_in_source). Refuted/C10.v holds the computed witness of the one remaining known finding. '
              'Correspondence: TypeBlocks.equals called directly on exhaustively enumerated small block pairs (all cell pairs of the alphabet x 1-D/2-D x skipna; all pairs of '
              'NaN masks x all pairs of layouts) and random multi-dtype tables; Frame/Series/Index/IndexHierarchy/Bus.equals, HE ==, !=, hash, set and dict membership '
              'through the public interface on pairs differing in exactly one cell, label, dtype, name, class, layout, shape or order, with NaN/None/NaT on one or both '
@@ -33,11 +33,12 @@ MANIFEST = {
              'Partial: the IndexLevel.equals tree walk is modelled (M_level_walk) and run against the implementation and against the flat-label specification, but M=S is '
              'NOT proved for hierarchies (the refinement theorems for Series/Frame/Bus require flat axes); the Python hash function itself is not modelled (assumption: '
              '==-equal scalars hash alike). Pairs of DIFFERENT missing values at one position (None vs NaN, NaT vs None, NaN vs NaT) are not determined by the property: '
-             'M is compared there, S is not. Four known findings (known/C10.jsonl) are witnessed in every run.'),
+             'M is compared there, S is not. One known finding (C10-nat-values-path, known/C10.jsonl) is witnessed in every run; three repaired ones (f01dccf, c228306, a6983c4) stay as regression inputs.'),
     'technique': 'refinement proof M=S over all block layouts + generated constants + differential correspondence',
 }
 PROPERTY_FILES = ['Properties/C10.v']
-REFUTED_FILES = ['Refuted/C10.v', 'Refuted/C10_mask.v', 'Refuted/C10_zero.v', 'Refuted/C10_hash.v']
+REFUTED_FILES = ['Refuted/C10.v']
+GENERATED_FILES = ['Gen/Gen_c10.v']
 MODEL_FILES = ['SF/Equal.v', 'Gen/Gen_c10.v']
 IMPORTS = 'Require Import SF.Prelude SF.Dtype SF.Value SF.Equal Gen.Gen_c10.'
 RULE = ('kernel stratum: TypeBlocks.equals on block pairs -- every pair of 1-column blocks over the cell alphabet (numbers, NaN, None, NaT, dates, strings) x 1-D/2-D x skipna, '
@@ -539,10 +540,7 @@ def zero_columns(ra, rb):
 def finding_tags(kind, ra, rb, o):
     '''finding class of a case, decided from the INPUT only'''
     if kind in ('frame', 'tb', 'bus'):
-        if zero_columns(ra, rb):
-            return 'C10-zero-columns'
-        if o['skipna'] and one_sided_nan(ra, rb):
-            return 'C10-tb-mask-self'
+        # (the classes of the repaired findings C10-tb-mask-self / C10-zero-columns stay as regression inputs, untagged)
         if not o['skipna'] and nat_pair_values_path(ra, rb):
             return 'C10-nat-values-path'
     return None
@@ -918,7 +916,8 @@ def kernel_tb_cases(ctx):
 
 
 def fixed_witness_cases(ctx):
-    '''the minimal inputs of the known findings (must reproduce in every run) and of repaired ones (regressions)'''
+    '''the minimal inputs of the known finding (must reproduce in every run) and of the three repaired ones (regressions: the
+    specification is the correct behaviour -- symmetric equals, column-less tables equal, hierarchical HE hashable with equal hashes)'''
     a = fr_rec([('float64', ['@nan']), ('int64', [1])], columns=ix_rec(['x', 'y']))
     b = fr_rec([('float64', [3.0]), ('int64', [1])], columns=ix_rec(['x', 'y']))
     yield from pair_case(ctx, 'api:frame.equals-witness', 'frame', a, b, dict(DEFAULT_OPTS), 'cell-missing-one-side')
@@ -1146,9 +1145,8 @@ def he_case(ctx, kind, ra, rb, what, identical=False):
     hier = any(r[ax]['cls'].startswith('IndexHierarchy') for r in (ra, rb) for ax in (('index', 'columns') if kind == 'frame' else ('index',)))
     he_opts = dict(compare_name=True, compare_dtype=False, compare_class=False, skipna=True)
     fid = finding_tags(kind, ra, rb, he_opts)
-    if hier:
-        tags['finding'] = 'C10-he-hash-hierarchy'
-    elif fid and not identical:
+    tags['hierarchical'] = hier            # regression class of the repaired finding C10-he-hash-hierarchy
+    if fid and not identical:
         tags['finding'] = fid
     py_fail = None
     if obs['a == b'] != obs['b == a']:
